@@ -71,10 +71,12 @@ def scenarios(tier):
     M1 = mailbox_id_from_bytes(b"\x5a\xa5" + (1).to_bytes(6, "big"))
     X = "X"
     out = []
-    intervals = INTERVALS if tier != "quick" else (7, 60, 100, 3600)
+    intervals = (INTERVALS + (2, 3, 13, 59, 61, 600, 604800)) if tier != "quick" else (7, 60, 100, 3600)
     for N in intervals:
         residues = sorted(set([0.0, 0.5, (N // 2) + 0.25, N - 0.5]))
-        for mult in ((3, 1700000) if tier != "quick" else (1700000,)):
+        if tier != "quick":
+            residues = sorted(set(residues + [1.0, round(N / 3.0, 2), N - 1.0, N - 0.01, 0.01]))
+        for mult in ((0, 3, 1700000, 2 ** 31) if tier != "quick" else (1700000,)):
             for res in residues:
                 if res >= N:
                     continue
